@@ -44,6 +44,9 @@ def run(ctx: Context) -> None:
     # "does not depend on verbosity" and "the checkpoint holds the triggering batch": verbosity reaches only prints, create_checkpoint changes no calibrator state (C01-R7)
     from . import c01
     ctx.rule(c01.r7_non_interference, v)
+    # "... is part of the checkpoint": the history and the two progress counters written by the checkpoint after the stopping batch come back as themselves
+    from . import c18
+    ctx.rule(c18.restored_records_identity, ("current_batch_index", "n_sampled_params"))
 
 
 def _is_precision_test(v: CalibrateView, n) -> bool | None:
